@@ -84,6 +84,8 @@ def run(model: Model, rep: Report) -> None:
     _fallback(model, rep)
     # ---------------------------------------------------------------- R7
     _revreadlines(model, rep)
+    # ---------------------------------------------------------------- R8
+    cache_writers_rule(model, rep, "C02-R8")
     # ---------------------------------------------------------------- R6
     r6 = rep.rule("C02-R6", "BIND", "object-stream member lookup: objs[N*2 + index] with index from the xref entry; xref-stream entry fields", 4)
     om = model.func(DOC + "._getobj_objstm")
@@ -233,3 +235,38 @@ def _revreadlines(model: Model, rep: Report) -> None:
     fx = model.func(DOC + ".find_xref")
     s2 = "".join(unparse(fx.node).split())
     r7.check("forlineinparser.revreadlines():line=line.strip()" in s2 and "ifline==b'startxref':" in s2 and "ifline:prev=line" in s2 and "start=int(prev)" in s2, site(fx), fx.qualname, "the offset is the last non-empty line read before `startxref` when reading backwards", why="find_xref changed")
+
+
+def cache_writers_rule(model: Model, rep: Report, rid: str) -> None:
+    """The newest-section-wins walk lives in getobj; a cache entry written anywhere else, or under another key, can
+    answer a later lookup without that walk (e.g. a member of an old object stream that a later update overrides)."""
+    from ..rules.c12 import MUTATORS
+
+    r8 = rep.rule(rid, "WRITESET", "object caches are written only by the lookup that owns them, under the key that was looked up: _cached_objs[objid] in getobj (after the section walk), _parsed_objs[stream.objid] in _getobj_objstm", 2)
+    want = {"_cached_objs": (DOC + ".getobj", "objid"), "_parsed_objs": (DOC + "._getobj_objstm", "stream.objid")}
+    seen = {k: 0 for k in want}
+    for q, f in sorted(model.funcs.items()):
+        if isinstance(f.node, ast.Lambda):
+            continue
+        for n in walk_no_nested(f.node):
+            hits = []
+            if isinstance(n, (ast.Assign, ast.AugAssign, ast.AnnAssign)):
+                for t in n.targets if isinstance(n, ast.Assign) else [n.target]:
+                    if isinstance(t, ast.Subscript) and isinstance(t.value, ast.Attribute) and t.value.attr in want:
+                        hits.append((t.value.attr, unparse(t.slice), "item store"))
+                    elif isinstance(t, ast.Attribute) and t.attr in want and f.name != "__init__":
+                        hits.append((t.attr, "", "rebinding"))
+            elif isinstance(n, ast.Delete):
+                for t in n.targets:
+                    if isinstance(t, ast.Subscript) and isinstance(t.value, ast.Attribute) and t.value.attr in want:
+                        hits.append((t.value.attr, unparse(t.slice), "deletion"))
+            elif isinstance(n, ast.Call) and isinstance(n.func, ast.Attribute) and n.func.attr in MUTATORS and isinstance(n.func.value, ast.Attribute) and n.func.value.attr in want:
+                hits.append((n.func.value.attr, unparse(n.args[0]) if n.args else "", f".{n.func.attr}()"))
+            for (cache, key, how) in hits:
+                owner, wkey = want[cache]
+                ok = q == owner and key == wkey and how == "item store"
+                seen[cache] += 1
+                r8.check(ok, site(f, n), q, f"{cache} {how} under `{key}`: {unparse(n)[:70]}", why=f"only {owner.split('.')[-1]} may store into {cache}, and only under `{wkey}`; an entry registered elsewhere is served by getobj before the cross-reference sections are consulted newest first")
+    for cache, k in seen.items():
+        if k == 0:
+            raise AnchorMissing(f"no store into {cache} found")
